@@ -21,6 +21,7 @@ char *hex_of(const void *p, size_t n, char *out);
 /* counting objects: refcount starts at 1 (owned by the creator).  Never freed, so an
  * over-release is observable as a negative count. */
 Object counting_new(int token);
+Object counting_lend(int token);   /* owned by the lender, released in counting_report() */
 /* canonical text of an object: "t<token>", "null", or "?<ptr>"; returns a pointer into a
  * small rotating static buffer (valid for the next 16 calls) */
 const char *obj_text(Object o);
